@@ -128,7 +128,7 @@ def event_coq(e, pops):
             t0 = e['start_time'][k] if isinstance(e['start_time'], dict) else e['start_time']
             en = e.get('end_time')
             en_k = en[k] if isinstance(en, dict) else en
-            pts = [(j / 64, float(init[k] * np.exp(-g * (j / 64 - t0)))) for j in range(0, 64 * 6 + 1)]
+            pts = [(j / 64, float(init[k] * np.exp(-g * (j / 64 - t0)))) for j in range(0, 64 * 12 + 1)]   # 12 time units: NE = 14 epochs of step <= 0.5 after change times <= 3
             trs.append(traj_coq(k, pts, t0, en_k, e['step_size'], pops))
         return '(EDiscretized ' + C.coqlist(trs) + ')'
     raise ValueError(t)
